@@ -98,7 +98,17 @@ func faultAtom(t *rapid.T) (ast.Expr, string) {
 func inContext(t *rapid.T, f ast.Expr) (ast.Expr, string) {
 	a := ast.F("a")
 	ml := func(es ...ast.Expr) *ast.Chain { return &ast.Chain{Head: ast.Head{Kind: ast.HMultiList, Items: es}} }
-	switch rapid.IntRange(0, 13).Draw(t, "context") {
+	switch rapid.IntRange(0, 17).Draw(t, "context") {
+	case 14: // selectors continuing a slice of a string ("b" is a string in the first document)
+		return ast.F("b").With(ast.Step{Kind: ast.SSlice, Start: ast.I64(0), Stop: ast.I64(1)}, ast.Step{Kind: ast.SMultiList, Items: []ast.Expr{f}}), "after-string-slice"
+	case 15:
+		return a.With(ast.Step{Kind: ast.SSlice, Start: ast.I64(0), Stop: ast.I64(1)}, ast.Step{Kind: ast.SMultiList, Items: []ast.Expr{f}}), "after-array-slice"
+	case 16:
+		return a.With(ast.Step{Kind: ast.SIndex, Index: 0}, ast.Step{Kind: ast.SMultiHash, Keys: []string{"k"}, Items: []ast.Expr{f}}), "after-index"
+	case 17: // next to a bound variable, inside such a continuation
+		sub := gen.Pick(t, "letsubject", []string{"b", "a", "o"})
+		st := gen.Pick(t, "letstep", []ast.Step{{Kind: ast.SSlice, Start: ast.I64(0), Stop: ast.I64(1)}, {Kind: ast.SListStar}, {Kind: ast.SStar}, {Kind: ast.SFlatten}, {Kind: ast.SSlice, Stride: ast.I64(-1)}})
+		return &ast.Let{Names: []string{"v"}, Vals: []ast.Expr{lit("1")}, Body: ast.F(sub).With(st, ast.Step{Kind: ast.SMultiList, Items: []ast.Expr{ast.Var("v"), f}})}, "let-continuation"
 	case 0:
 		return f, "top"
 	case 1:
@@ -232,7 +242,7 @@ func TestC08_Errors(t *testing.T) {
 		vals[i] = v
 		docs[i] = run.FromVal(v)
 	}
-	rapid.Check(t, func(t *rapid.T) {
+	check(t, func(t *rapid.T) {
 		f1, class := faultAtom(t)
 		e, ctx := inContext(t, f1)
 		label := class + "/" + ctx
